@@ -7,6 +7,36 @@ import PdfVerif.Lemmas.CcittRun
 namespace PdfVerif.Ccitt
 open PdfVerif.Gen PdfVerif.Spec
 
+/-! ### proof devices: the scans with the column-0 case folded into an imaginary white pixel -/
+
+/-- `scanFrom` when the test at column 0 is the general test with a white pixel on the left. -/
+def scan (cond : Bool → Bool → Bool) : Bool → List Bool → Nat → Nat
+  | _, [], x => x
+  | prev, r :: rs, x => if cond prev r then x else scan cond r rs (x + 1)
+
+/-- The pixel left of position `x`, white before the line. -/
+def prevPix (ref : List Bool) (x : Nat) : Bool := if x = 0 then true else ref.getD (x - 1) true
+
+theorem scanFrom_some (cond0 : Bool → Bool → Bool) (cond : Bool → Bool → Bool → Bool) (color : Bool) :
+    ∀ (l : List Bool) (p : Bool) (x : Nat),
+      scanFrom cond0 cond color (some p) l x = scan (fun p r => cond p r color) p l x := by
+  intro l
+  induction l with
+  | nil => intro p x; rfl
+  | cons r rs ih => intro p x; simp only [scanFrom, scan, ih]
+
+theorem scanFrom_eq_scan (cond0 : Bool → Bool → Bool) (cond : Bool → Bool → Bool → Bool) (color : Bool)
+    (h0 : ∀ r, cond0 r color = cond true r color) (ref : List Bool) (x1 : Nat) :
+    scanFrom cond0 cond color (prevOpt ref x1) (ref.drop x1) x1 =
+      scan (fun p r => cond p r color) (prevPix ref x1) (ref.drop x1) x1 := by
+  by_cases hx : x1 = 0
+  · subst hx
+    simp only [prevOpt, prevPix, if_true, List.drop_zero]
+    cases ref with
+    | nil => rfl
+    | cons r rs => simp only [scanFrom, scan, h0, scanFrom_some]
+  · simp only [prevOpt, prevPix, hx, if_false, scanFrom_some]
+
 /-! ### takeWhile -/
 
 theorem takeWhile_length_le {α} (p : α → Bool) (l : List α) : (l.takeWhile p).length ≤ l.length := by
@@ -150,7 +180,14 @@ theorem withPrev_drop (ref : List Bool) (lo : Nat) :
     omega
 
 theorem findB1_eq (ref : List Bool) (c : Bool) (lo : Nat) : findB1 ref c lo = T6.b1Of ref c lo := by
-  simp only [findB1, T6.b1Of, scan_eq_takeWhile, withPrev_drop]
+  unfold findB1
+  rw [scanFrom_eq_scan _ _ _ (by intro r; cases r <;> cases c <;> rfl)]
+  simp only [CcittCode.vertCond, T6.b1Of, scan_eq_takeWhile, withPrev_drop]
+
+theorem findB1p_eq (ref : List Bool) (c : Bool) (lo : Nat) : findB1p ref c lo = T6.b1Of ref c lo := by
+  unfold findB1p
+  rw [scanFrom_eq_scan _ _ _ (by intro r; cases r <;> cases c <;> rfl)]
+  simp only [CcittCode.passB1Cond, T6.b1Of, scan_eq_takeWhile, withPrev_drop]
 
 theorem scan_b2 (c : Bool) : ∀ (l : List Bool) (prev : Bool) (x : Nat), prev = (!c) →
     scan (fun p r => p != c && r == c) prev l x = x + (l.takeWhile (· == !c)).length := by
@@ -172,7 +209,9 @@ theorem scan_b2 (c : Bool) : ∀ (l : List Bool) (prev : Bool) (x : Nat), prev =
 theorem findB2_eq (ref : List Bool) (c : Bool) (b1 : Nat) (hle : b1 ≤ ref.length)
     (hstop : b1 < ref.length → ref[b1]? = some (!c)) :
     findB2 ref c b1 = T6.b2Of ref c b1 := by
-  simp only [findB2, T6.b2Of, T6.nextNot]
+  unfold findB2
+  rw [scanFrom_eq_scan _ _ _ (by intro r; cases r <;> cases c <;> rfl)]
+  simp only [CcittCode.passB2Cond, T6.b2Of, T6.nextNot]
   by_cases h : b1 < ref.length
   · have hb := hstop h
     have hd : ref.drop b1 = (!c) :: ref.drop (b1 + 1) := by
@@ -243,7 +282,8 @@ theorem doVertical_eq (st : St) (d : Int) (a1 : Nat)
     (h1 : a1 ≤ st.width) (h2 : max 0 st.curpos ≤ (a1 : Int)) :
     doVertical st d = { st with curline := fill st.curline (max 0 st.curpos).toNat a1 st.color,
                                 curpos := (a1 : Int), color := !st.color } := by
-  simp only [doVertical, hb]
+  simp only [doVertical, CcittCode.vertStart, CcittCode.vertTarget, CcittCode.vertX0, CcittCode.vertClamp,
+    CcittCode.vertBackward, CcittCode.vertForward, CcittCode.vertNewColor, decide_eq_true_eq, hb]
   have hx : max 0 (min (st.width : Int) (a1 : Int)) = (a1 : Int) := by omega
   rw [hx]
   have hn : ¬ ((a1 : Int) < max 0 st.curpos) := by omega
@@ -253,18 +293,36 @@ theorem doVertical_eq (st : St) (d : Int) (a1 : Nat)
   · simp only [hlt, if_false]
     rw [fill_empty _ _ _ _ (by omega)]
 
+theorem runEnd_le (len : Int) : ∀ (n : Nat) (x : Int),
+    runEnd (fun len x => decide (len ≤ x)) len n x = min (x + n) (max x len) := by
+  intro n
+  induction n with
+  | zero => intro x; simp only [runEnd]; omega
+  | succ n ih =>
+    intro x
+    simp only [runEnd, decide_eq_true_eq]
+    by_cases h : len ≤ x
+    · simp only [h, if_true]; omega
+    · simp only [h, if_false, ih]; omega
+
 theorem doHorizontal_eq (st : St) (n1 n2 : Nat) (h : (max 0 st.curpos).toNat + n1 + n2 ≤ st.curline.length) :
     doHorizontal st n1 n2 =
       { st with curline := fill (fill st.curline (max 0 st.curpos).toNat ((max 0 st.curpos).toNat + n1) st.color)
                             ((max 0 st.curpos).toNat + n1) ((max 0 st.curpos).toNat + n1 + n2) (!st.color),
                 curpos := (((max 0 st.curpos).toNat + n1 + n2 : Nat) : Int) } := by
-  simp only [doHorizontal]
-  have e1 : min ((max 0 st.curpos).toNat + n1) (max (max 0 st.curpos).toNat st.curline.length)
-      = (max 0 st.curpos).toNat + n1 := by omega
+  have hx : (if CcittCode.horizNeg st.curpos = true then CcittCode.horizZero else st.curpos) = max 0 st.curpos := by
+    simp only [CcittCode.horizNeg, CcittCode.horizZero, decide_eq_true_eq]; split <;> omega
+  have hs1 : CcittCode.horizStop1 = fun len x => decide (len ≤ x) := rfl
+  have hs2 : CcittCode.horizStop2 = fun len x => decide (len ≤ x) := rfl
+  simp only [doHorizontal, hx, hs1, hs2, runEnd_le, CcittCode.horizColor1, CcittCode.horizColor2]
+  have e1 : min (max 0 st.curpos + (n1 : Int)) (max (max 0 st.curpos) (st.curline.length : Int))
+      = (((max 0 st.curpos).toNat + n1 : Nat) : Int) := by omega
   rw [e1]
-  have e2 : min ((max 0 st.curpos).toNat + n1 + n2) (max ((max 0 st.curpos).toNat + n1) st.curline.length)
-      = (max 0 st.curpos).toNat + n1 + n2 := by omega
+  have e2 : min ((((max 0 st.curpos).toNat + n1 : Nat) : Int) + (n2 : Int))
+      (max (((max 0 st.curpos).toNat + n1 : Nat) : Int) (st.curline.length : Int))
+      = (((max 0 st.curpos).toNat + n1 + n2 : Nat) : Int) := by omega
   rw [e2]
+  simp only [Int.toNat_natCast]
 
 section steps
 variable {w : Nat} {al rv : Bool} {ref cur : List Bool} {buf : List UInt8} {st : St} {a0 : Int} {color : Bool}
@@ -321,7 +379,7 @@ theorem core_pass (h : Core w al rv ref cur buf st a0 color) (hlt : a0 < w) (hcu
       curline := fill (if a0 < 0 then fill st.curline (w - 1) w color else st.curline) a0.toNat
         (T6.b2Of ref color (T6.b1Of ref color (a0 + 1).toNat)) color,
       curpos := (T6.b2Of ref color (T6.b1Of ref color (a0 + 1).toNat) : Int) } := by
-    simp only [doPass, h.rf, h.col, h.cp, h.wd, findB1_eq, hb2e]
+    simp only [doPass, CcittCode.passStart, h.rf, h.col, h.cp, h.wd, findB1p_eq, hb2e]
   generalize T6.nextNot cur color (a0 + 1).toNat = a1 at *
   generalize T6.b1Of ref color (a0 + 1).toNat = b1 at *
   generalize T6.b2Of ref color b1 = b2 at *
